@@ -281,6 +281,13 @@ def stepIdxStat (psh : List Nat) (ix0 ix1 : List (Option Nat)) (vals : List Rat)
     let sel := selectVals pv pm
     match what with
     | .list [.atom "stat", .atom name] => optRatToSexp (statOf name sel)
+    | .list [.atom "stataxis", .atom name] =>
+      -- the statistic along axis 0 of the reduced dataset: one value per index tuple of the other axes
+      let rsh := reducedShape psh ix
+      let n := rsh.headD 1
+      let mcells := prod (rsh.drop 1)
+      .list ((List.range mcells).map fun j =>
+        optRatToSexp (statOf name ((List.range n).map fun i => pv.getD (i * mcells + j) 0)))
     | .list [.atom "hist", lo, bins] =>
       match lo.toInt?, bins.toNat? with
       | some l, some b => ofNats (histOf l b sel)
